@@ -1,13 +1,13 @@
 package main
 
 import (
-	"runtime"
 	"context"
 	"errors"
 	"fmt"
 	"math/rand"
 	"sort"
 	"strings"
+	"sync"
 	"time"
 
 	"github.com/siyul-park/uniflow/pkg/process"
@@ -42,6 +42,7 @@ type world04 struct {
 	errs    []error
 	nextHk  int
 	fail    string
+	wg      sync.WaitGroup
 }
 
 func (w *world04) errID(err error) int {
@@ -146,7 +147,9 @@ func history04(r *rand.Rand, hist map[string]int) (string, any, string, bool) {
 	for i := 0; i < nt; i++ {
 		t := &thr04{cmd: make(chan func()), parked: -1}
 		w.threads = append(w.threads, t)
+		w.wg.Add(1)
 		go func() {
+			defer w.wg.Done()
 			for f := range t.cmd {
 				f()
 			}
@@ -161,13 +164,29 @@ func history04(r *rand.Rand, hist map[string]int) (string, any, string, bool) {
 				close(rel)
 			}
 		}
+		stop := make(chan struct{})
 		go func() {
-			for range w.events {
+			for {
+				select {
+				case <-w.events:
+				case <-stop:
+					return
+				}
 			}
 		}()
 		for _, t := range w.threads {
 			close(t.cmd)
 		}
+		// once the workers are gone, terminate every process so that no Join probe stays blocked: leaked
+		// goroutines would make every later goroutine dump longer
+		procs := w.procs
+		go func() {
+			w.wg.Wait()
+			for _, p := range procs {
+				p.Exit(nil)
+			}
+			close(stop)
+		}()
 	}()
 	var steps, input []string
 	n := 4 + r.Intn(14)
@@ -407,8 +426,8 @@ func joinProbe(p *process.Process) (chan struct{}, bool) {
 
 // goroutineWaits reports whether goroutine gid is parked with one of the given wait reasons
 func goroutineWaits(gid uint64, reasons ...string) bool {
-	buf := make([]byte, 1<<20)
-	n := runtime.Stack(buf, true)
+	buf := allStacks()
+	n := len(buf)
 	head := fmt.Sprintf("goroutine %d [", gid)
 	i := strings.Index(string(buf[:n]), head)
 	if i < 0 {
